@@ -80,6 +80,9 @@ def gen_case(rng, idx, tier):
     d = cv.enc_curve(cur, nt)
     d["nodes"] = [n if isinstance(n, str) and n.startswith("junk") else lib.enc(n) for n in nodes]
     d["cls"] = cls
+    # half of the exact cases are preceded by the same request on a twin curve holding the same values in another
+    # number class: the result must not depend on what other curves did earlier in the process
+    d["prime"] = rng.choice([None, "float", "int"]) if nt == "frac" else None
     return d
 
 
@@ -99,6 +102,22 @@ def run_case(case, ctx):
     else:
         nodes_n = [lib.num(F(n), nt) for n in case["nodes"]]
         nodes_q = [ref.fr(x) for x in nodes_n]
+    if case.get("prime") and not junk:
+        tw = case["prime"]
+        # the twin must hold exactly the same values (a float twin of 1/3 would put knots one ulp apart, which is
+        # outside the separation bound of DESIGN 4)
+        same_values = all(F(float(k)) == k for k in list(U) + nodes_q) if tw == "float" else all(k.denominator == 1 for k in U)
+        if same_values:
+            from .. import attach
+
+            attach.S.enabled = False  # the twin's own outcome is irrelevant and not judged
+            try:
+                o = call(lib.mk_curve, U, P, W, tw)
+                if o.ok:
+                    call(o.value.knot_insert, list(nodes_n))  # same node objects, other knot class
+                    ctx.count("primed_by_twin")
+            finally:
+                attach.S.enabled = True
     pre = lib.curve_digest(curve)
     Uq = rc.U
     valid = False
